@@ -126,6 +126,8 @@ func (ap *AttestationPool) AddAttestation(ctx context.Context, att *phase0.Attes
 			// this aggregate adds additional participants compared to the total we had before, keep it!
 			existing.Aggregates = append(existing.Aggregates,
 				Aggregate{Participants: att.AggregationBits, Sig: att.Signature})
+			// keep the OR of all stored bitfields up to date, so later subsets and duplicates are recognized
+			existing.Participants.Or(att.AggregationBits)
 
 			// remember the participants attested this epoch
 			key := Assignment{Index: 0, Epoch: att.Data.Target.Epoch}
